@@ -39,7 +39,7 @@ func init() {
 	register("C02", func(r *Run) error {
 		return runB(r, &BSpec{
 			ID: "C02", Profiles: []string{"codeblocks", "codeblocks", "stateful", "utf8"},
-			Grammars: [2]int{96, 1600}, Cases: [2]int{500, 1000}, Variants: plainAndOptimized,
+			Grammars: [2]int{192, 1600}, Cases: [2]int{500, 1000}, Variants: plainAndOptimized,
 			Tweak: func(i int, g *gspec.Grammar) {
 				if i%6 == 5 {
 					g.Recv = []string{"p", "cur", "ctx"}[i/6%3]
@@ -52,7 +52,7 @@ func init() {
 	register("C05", func(r *Run) error {
 		return runB(r, &BSpec{
 			ID: "C05", Profiles: []string{"stateful"}, Gen: withLR([]string{"stateful"}, 4, true),
-			Grammars: [2]int{96, 1600}, Cases: [2]int{500, 1000}, Variants: plainAndOptimized,
+			Grammars: [2]int{192, 1600}, Cases: [2]int{500, 1000}, Variants: plainAndOptimized,
 			Rule:        "grammars from profile stateful (#{} blocks with scripted ops on shallow ints and an in-place mutated Cloner list, at arbitrary positions: rejected alternatives, failing sequences, & !, repetitions), with and without -optimize-parser; rapid draws (entry, input, InitState seeds, globalStore seed, whether actions/predicates attempt state writes); compared: the c.state and globalStore snapshot seen by every code block against the reference's transactional store, plus the parse value. Non-trivial = >=1 rollback of a non-empty state delta and >=2 events.",
 			Assumptions: commonAssumptions,
 		})
@@ -60,7 +60,7 @@ func init() {
 	register("C11", func(r *Run) error {
 		return runB(r, &BSpec{
 			ID: "C11", Profiles: []string{"faults", "faults", "stateful"}, Gen: withLR([]string{"faults", "faults", "stateful"}, 3, false),
-			Grammars: [2]int{96, 1600}, Cases: [2]int{500, 1000}, Variants: plainAndOptimized,
+			Grammars: [2]int{192, 1600}, Cases: [2]int{500, 1000}, Variants: plainAndOptimized,
 			Rule:        "grammars from profile faults (display names on some rules) with fault plans drawn by rapid per case: up to 4 blocks returning errors (unique and repeated messages, n-th invocation or every invocation) or panicking with an error/string, Recover(true|false), file name empty or not; compared: dynamic type of the error (errList of *parserError), Inner identical to the injected value, every message [file:]line:col (off)[: rule NAME]: msg, exact list in order of first occurrence after de-duplication, value returned together with errors, panic -> nil value and last error (Recover) or the same value reaching the caller (Recover(false)). Non-trivial = >=1 fault fired.",
 			Assumptions: commonAssumptions,
 		})
@@ -68,7 +68,7 @@ func init() {
 	register("C12", func(r *Run) error {
 		return runB(r, &BSpec{
 			ID: "C12", Profiles: []string{"errors"}, Gen: withLR([]string{"errors"}, 4, false),
-			Grammars: [2]int{96, 1600}, Cases: [2]int{600, 1200}, Variants: plainAndOptimized,
+			Grammars: [2]int{192, 1600}, Cases: [2]int{600, 1200}, Variants: plainAndOptimized,
 			Rule:        "grammars from profile errors (no code blocks, many terminals starting at the same offset on different paths, ! and !! nesting, !.), failing inputs from derivation sampling + edits; compared: exactly one error, its offset/line:col = farthest failing terminal start, message = 'no match found, expected: ' + sorted unique wants with !-prefixed inverted ones and EOF last. Non-trivial = failed parse with offset>0 or >=2 expected or an inverted entry.",
 			Assumptions: commonAssumptions,
 		})
@@ -76,7 +76,7 @@ func init() {
 	register("C14", func(r *Run) error {
 		return runB(r, &BSpec{
 			ID: "C14", Profiles: []string{"throwrecover"},
-			Grammars: [2]int{96, 1600}, Cases: [2]int{500, 1000}, Variants: plainAndOptimized,
+			Grammars: [2]int{192, 1600}, Cases: [2]int{500, 1000}, Variants: plainAndOptimized,
 			Rule:        "grammars from profile throwrecover (nested recovery operators, several and shared labels, throws in called rules, inside repetitions and predicates, handlers that fail, unhandled labels); compared with the reference's dynamic handler stack: success, consumed prefix, value (recovery expression's value in place of the throw), code-block trace. Non-trivial = >=1 throw handled or a failing handler falling through to an outer one.",
 			Assumptions: commonAssumptions,
 		})
@@ -84,7 +84,7 @@ func init() {
 	register("C17", func(r *Run) error {
 		return runB(r, &BSpec{
 			ID: "C17", Profiles: []string{"utf8"}, Gen: withLR([]string{"utf8"}, 5, false),
-			Grammars: [2]int{96, 1600}, Cases: [2]int{600, 1200}, Variants: plainAndOptimized,
+			Grammars: [2]int{192, 1600}, Cases: [2]int{600, 1200}, Variants: plainAndOptimized,
 			Rule:        "grammars from profile utf8 (., classes and literals containing U+FFFD, inverted classes, multi-byte runes) and byte strings with truncated sequences, overlongs, surrogates, stray continuation bytes inserted at any rune boundary; both AllowInvalidUTF8 modes; compared with the reference (width-1 U+FFFD decoding): match result, values, action text/pos, and the complete error list ('invalid encoding' at every invalid offset the parse advanced onto, with rule prefix). Non-trivial = >=1 invalid byte advanced onto.",
 			Assumptions: commonAssumptions,
 		})
@@ -114,7 +114,7 @@ func init() {
 	register("C06", func(r *Run) error {
 		return runB(r, &BSpec{
 			ID: "C06", Profiles: []string{"memo", "memo", "codeblocks"}, Gen: withLR([]string{"memo", "memo", "codeblocks"}, 3, false),
-			Grammars: [2]int{96, 1600}, Cases: [2]int{400, 800}, Variants: standardOnly,
+			Grammars: [2]int{192, 1600}, Cases: [2]int{400, 800}, Variants: standardOnly,
 			Rule:        "grammars from profiles memo/codeblocks (pure code blocks: actions return a function of text/pos/labels, predicates a function of id and labels, faults fire on every invocation; no state blocks, no throw/recover; shared sub-rules reached from several alternatives), non-optimized parsers; rapid draws (entry, input, plan, a non-default combination of Memoize/Debug/Statistics); metamorphic relation: same success, value and code-block errors as the default-option run (which is itself tied to the reference); with Memoize: Stats.ExprCnt <= grammar expressions x (len+1) and no action runs twice at one offset; Stats.ExprCnt of the plain run equals the reference's evaluation count. Non-trivial = Memoize run with >=1 memo hit (ExprCnt lower than the plain run) or another option on a case with code-block events.",
 			Assumptions: commonAssumptions,
 		})
@@ -122,7 +122,7 @@ func init() {
 	register("C16", func(r *Run) error {
 		return runB(r, &BSpec{
 			ID: "C16", Profiles: []string{"diverging", "codeblocks", "stateful", "core"}, Gen: withLR([]string{"diverging", "codeblocks", "diverging", "stateful", "core"}, 6, false),
-			Grammars: [2]int{96, 1600}, Cases: [2]int{400, 800}, Variants: plainAndOptimized,
+			Grammars: [2]int{192, 1600}, Cases: [2]int{400, 800}, Variants: plainAndOptimized,
 			Rule:        "grammars from profiles diverging (repetitions over bodies that can succeed without consuming: (e?)*, (&e)+, (!.)*) and codeblocks/core; rapid draws (entry, input, Memoize/Debug/Statistics/AllowInvalidUTF8, a budget n relative to the need N of the unbounded parse: 1, N-1, N, N+1, N/2, a fraction, 2N+7; fixed budgets for diverging cases); relations: the call returns (watchdog 20 s); n>=N => result identical to the unbounded parse; n<N or diverging => nil value and the 'max number of expressions parsed' error last; code-block events <= n and Stats.ExprCnt <= n+1; without Memoize the complete error list equals the reference's run under the same budget and Stats.ExprCnt of the unbounded run equals the reference count. Non-trivial = n<N or a diverging case.",
 			Assumptions: commonAssumptions,
 		})
@@ -134,7 +134,7 @@ func init() {
 		return runB(r, &BSpec{
 			ID: "C10", Profiles: []string{"codeblocks", "stateful", "faults", "throwrecover", "stateful", "utf8"},
 			Gen:      withLR([]string{"codeblocks", "stateful", "faults", "throwrecover", "stateful", "utf8"}, 4, true),
-			Grammars: [2]int{96, 1600}, Cases: [2]int{500, 1000},
+			Grammars: [2]int{192, 1600}, Cases: [2]int{500, 1000},
 			Variants: func(i int, g *gspec.Grammar) []batch.Variant {
 				x := [][]string{nil, {"-optimize-basic-latin"}, {"-nolint"}, {"-support-left-recursion"}, {"-optimize-basic-latin", "-nolint"}, {"-support-left-recursion", "-optimize-basic-latin"}}[i%6]
 				if g.Profile == "leftrec" {
@@ -149,7 +149,7 @@ func init() {
 	register("C09", func(r *Run) error {
 		return runB(r, &BSpec{
 			ID: "C09", Profiles: []string{"optbait", "optbait", "codeblocks", "throwrecover"},
-			Grammars: [2]int{96, 1600}, Cases: [2]int{500, 1000},
+			Grammars: [2]int{288, 2400}, Cases: [2]int{500, 1000},
 			Variants: func(i int, g *gspec.Grammar) []batch.Variant {
 				// Tweak already restricted g.Entries to the protected subset of this grammar
 				return c09Variants(i, g)
@@ -192,7 +192,7 @@ func init() {
 	})
 	register("C15", func(r *Run) error {
 		return runB(r, &BSpec{
-			ID: "C15", Grammars: [2]int{48, 600}, Cases: [2]int{60, 120},
+			ID: "C15", Grammars: [2]int{96, 600}, Cases: [2]int{60, 120},
 			Gen: func(r *Run, i int, seed int) *gspec.Grammar { return gspec.ClassGrammarGen(40).Example(seed) },
 			Variants: func(i int, g *gspec.Grammar) []batch.Variant {
 				x := [][]string{nil, {"-optimize-parser"}}[i%2]
@@ -226,7 +226,7 @@ func lrVariants(i int, g *gspec.Grammar) []batch.Variant {
 func init() {
 	register("C08", func(r *Run) error {
 		return runB(r, &BSpec{
-			ID: "C08", Grammars: [2]int{96, 1600}, Cases: [2]int{500, 1000}, Variants: lrVariants,
+			ID: "C08", Grammars: [2]int{144, 1600}, Cases: [2]int{500, 1000}, Variants: lrVariants,
 			Gen:         func(r *Run, i int, seed int) *gspec.Grammar { return gspec.LRGrammarGen(i%3 == 2).Example(seed) },
 			Rule:        "grammars built from 1-3 nested directly left-recursive rules Li <- Li t1 / .. / Li tn / b1 / .. / bm (tails non-nullable; operands: next level, helper rules with arbitrary non-LR expressions, parenthesised top level; labels, actions, code predicates, state blocks in a third of the grammars), 30% of the levels through one other rule (Li <- Vi t / b ; Vi <- Li u), generated with -support-left-recursion with and without -optimize-parser; rapid draws (entry, input from sampling the denotation + edits, plan with error-returning blocks, InitState); the reference evaluates each LR rule by its denotation (ordered choice of the bases, greedy loop over the ordered choice of the tails, recursive reference = result so far); compared: termination, success, consumed prefix, left-nested value for plain, Memoize and optimized parsers; when the denotation invokes every LR rule at most once per offset also the error list and the state seen by every code block (nothing of the final non-extending attempt retained). Non-trivial = >=2 growth iterations.",
 			Assumptions: commonAssumptions,
